@@ -15,7 +15,7 @@ func init() { register(c07{}) }
 func (c07) ID() string    { return "C07" }
 func (c07) Level() string { return "fault_enumeration" }
 func (c07) Rule() string {
-	return "enumerated part: every corpus file (repository seed files + 18 fixed generated files) of at most the tier's size limit x 4 loaders x every truncation point and every sticky-I/O-error position (error alone / error together with data) in [0,len], larger files at every structure boundary -1/0/+1, each under a drawn delivery and consumer policy; seeded part: drawn (input class, loader, fault, delivery, consumer). A run is non-trivial when the loader consumed >= 1 byte and, if a fault was configured, the fault fired inside what was consumed or replayed; distinct = hash(input, loader, fault kind+offset, delivery-log hash, consumer)."
+	return "enumerated part: every corpus file (repository seed files + 18 fixed generated files) of at most the tier's size limit x 4 loaders x every truncation point and every sticky-I/O-error position (error alone / error together with data; in thorough also every transient-error position) in [0,len], larger files at every structure boundary -1/0/+1, each under a drawn delivery and consumer policy; seeded part: drawn (input class, loader, fault, delivery, consumer). A run is non-trivial when the loader consumed >= 1 byte and, if a fault was configured, the fault fired inside what was consumed or replayed; distinct = hash(input, loader, fault kind+offset, delivery-log hash, consumer)."
 }
 func (c07) Exhaustive(tier string) string {
 	return "truncation points and sticky-error positions of the small corpus files x 4 loaders (the enumerated part); the seeded part is sampled"
@@ -68,8 +68,12 @@ func c07enumeration(tier string) []c07enum {
 				offs = offs[:120]
 			}
 		}
+		kinds := 3
+		if tier == "thorough" && len(f.Data) <= lim {
+			kinds = 4 // transient errors too
+		}
 		for li := range Loaders {
-			for kind := 1; kind <= 3; kind++ {
+			for kind := 1; kind <= kinds; kind++ {
 				for _, o := range offs {
 					out = append(out, c07enum{fi, li, kind, o})
 				}
@@ -97,7 +101,7 @@ func (c07) Prefix(tier string, i int64) []uint64 {
 	return []uint64{0, uint64(x.file), uint64(x.loader), uint64(x.kind), uint64(x.off)}
 }
 
-var c07weights = InputWeights{Corpus: 2, Valid: 4, ICCDamaged: 2, Damaged: 4, Random: 1, SigJunk: 2, Polyglot: 2, Empty: 1, ShortSOF: 1}
+var c07weights = InputWeights{Corpus: 2, Valid: 4, ICCDamaged: 2, Damaged: 4, Random: 1, SigJunk: 2, Polyglot: 2, Empty: 1, ShortSOF: 1, Soup: 4}
 
 func (c07) Run(t *tape.Tape, st *Stats) *Violation {
 	var in Input
@@ -110,7 +114,7 @@ func (c07) Run(t *tape.Tape, st *Stats) *Violation {
 		f := c[t.Intn(len(c))]
 		in = Input{Class: "corpus", Desc: f.Name, Data: f.Data, Fields: f.Fields}
 		loader = Loaders[t.Intn(len(Loaders))]
-		cfgFault = t.Intn(4)
+		cfgFault = t.Intn(5)
 		faultOff = t.Intn(len(in.Data) + 1)
 	} else {
 		in = DrawInput(t, c07weights, []int{1, 300, 5000, 70000})
@@ -147,9 +151,42 @@ func (c07) Run(t *tape.Tape, st *Stats) *Violation {
 	res := SafeLoad(loader, src)
 	duringLoad := src.Delivered
 	errDuringLoad := src.ErrFired
+	// multi-step history: in a third of the runs another Load (any loader, any
+	// input) happens between this Load and the reading of its stream, and the
+	// other stream is read first in half of those: a returned stream must not
+	// depend on what the package does afterwards
+	interposed := ""
+	var other *Violation
+	var late func()
+	if t.Chance(1, 3) {
+		in2 := DrawInput(t, c07weights, []int{1, 300, 5000})
+		l2 := Loaders[t.Intn(len(Loaders))]
+		src2 := simio.NewSource(simio.Bytes(in2.Data), simio.Config{TruncAt: -1, ErrAt: -1})
+		res2 := SafeLoad(l2, src2)
+		interposed = fmt.Sprintf("%s on %s (%d bytes)", l2.Name, trunc(in2.Desc, 80), len(in2.Data))
+		check2 := func() {
+			if res2.Panic != nil || res2.Stream == nil {
+				return // judged when that input is the main one
+			}
+			g2 := simio.Consumer{Policy: simio.ConsReadAll}.Consume(res2.Stream, in2.Data)
+			if g2.Diff >= 0 || g2.N < int64(len(in2.Data)) || g2.Err != nil {
+				other = &Violation{Class: "lost-bytes", Sig: "sequence:second-stream", Detail: fmt.Sprintf("stream of the interposed load (%s) yielded %d of %d bytes, first difference at %d, err %v", interposed, g2.N, len(in2.Data), g2.Diff, g2.Err)}
+			}
+		}
+		if t.Bool() {
+			check2()
+		} else {
+			late = check2
+		}
+	} else {
+		t.Intn(1)
+	}
 	var got simio.Consumed
 	if res.Panic == nil && res.Stream != nil {
 		got = cons.Consume(res.Stream, in.Data)
+	}
+	if late != nil {
+		late()
 	}
 	st.Evals++
 	st.Class(in.Class)
@@ -165,7 +202,7 @@ func (c07) Run(t *tape.Tape, st *Stats) *Violation {
 	}
 	render := func() interface{} {
 		return map[string]interface{}{
-			"input": in.Desc, "input_class": in.Class, "input_len": len(in.Data), "stored_faults": in.Faults,
+			"input": in.Desc, "input_class": in.Class, "input_len": len(in.Data), "stored_faults": in.Faults, "interposed_load": interposed,
 			"loader": loader.Name, "delivery": cfg.String(), "consumer": cons.String(),
 			"delivered_during_load": duringLoad, "delivered_total": src.Delivered,
 			"load_error": fmt.Sprint(res.Err), "replayed_len": got.N, "replay_error": fmt.Sprint(got.Err),
@@ -175,8 +212,16 @@ func (c07) Run(t *tape.Tape, st *Stats) *Violation {
 	if st.WantSample() {
 		st.Sample(render())
 	}
+	st.Probe("interposed_load_between_Load_and_reading", interposed != "")
 	fail := func(class, detail string) *Violation {
+		if interposed != "" {
+			detail += " [after an interposed load: " + interposed + "]"
+		}
 		return &Violation{Class: class, Sig: loader.Name + ":" + class, Detail: detail, Render: render()}
+	}
+	if other != nil {
+		other.Render = render()
+		return other
 	}
 	if res.Panic != nil {
 		return fail("panic", fmt.Sprintf("Load panicked: %v", res.Panic))
